@@ -369,13 +369,20 @@ theorem pres_readUpvalueLoc (a : Nat) : Pres R (readUpvalueLoc a) := by
   unfold readUpvalueLoc; pres_auto
 theorem pres_writeUpvalueLoc (a : Nat) (v : Val) : Pres R (writeUpvalueLoc a v) := by
   unfold writeUpvalueLoc; pres_auto
+theorem pres_guardVal (v : Val) : Pres R (guardVal v) := by unfold guardVal; pres_auto
+theorem pres_unguardVal (v : Val) : Pres R (unguardVal v) := by
+  unfold unguardVal
+  split
+  · exact pres_dropGuard _
+  · exact pres_pure _
 
 end prims
 macro_rules | `(tactic| pres_prim) => `(tactic| with_reducible first
   | exact pres_push _ | exact pres_pop | exact pres_peek _ | exact pres_popN _ | exact pres_curFrame
   | exact pres_writeLocal _ _ _ | exact pres_readLocal _ _ | exact pres_keyOf _ | exact pres_getTable _
   | exact pres_tableGet _ _ | exact pres_deallocBytes _ | exact pres_newObject _ | exact pres_dropGuard _
-  | exact pres_closeUpvalues _ | exact pres_readUpvalueLoc _ | exact pres_writeUpvalueLoc _ _)
+  | exact pres_closeUpvalues _ | exact pres_readUpvalueLoc _ | exact pres_writeUpvalueLoc _ _
+  | exact pres_guardVal _ | exact pres_unguardVal _)
 
 section compound
 variable {R : VmState → VmState → Prop} [CounterFrame R]
@@ -785,6 +792,12 @@ theorem throws_writeUpvalueLoc (a : Nat) (v : Val) : Throws Benign (writeUpvalue
   unfold writeUpvalueLoc; throws_auto
 theorem throws_allocBytes (c : Nat) : Throws Benign (allocBytes c) := by
   unfold allocBytes; throws_auto
+theorem throws_guardVal (v : Val) : Throws Benign (guardVal v) := by unfold guardVal; throws_auto
+theorem throws_unguardVal (v : Val) : Throws Benign (unguardVal v) := by
+  unfold unguardVal
+  split
+  · exact throws_dropGuard _
+  · exact throws_pure _
 
 macro_rules | `(tactic| throws_prim) => `(tactic| with_reducible first
   | exact throws_push _ | exact throws_pop | exact throws_peek _ | exact throws_popN _
@@ -792,7 +805,7 @@ macro_rules | `(tactic| throws_prim) => `(tactic| with_reducible first
   | exact throws_keyOf _ | exact throws_getTable _ | exact throws_tableGet _ _
   | exact throws_deallocBytes _ | exact throws_newObject _ | exact throws_dropGuard _
   | exact throws_closeUpvalues _ | exact throws_readUpvalueLoc _ | exact throws_writeUpvalueLoc _ _
-  | exact throws_allocBytes _)
+  | exact throws_allocBytes _ | exact throws_guardVal _ | exact throws_unguardVal _)
 
 theorem throws_initTable : Throws Benign initTable := by unfold initTable; throws_auto
 theorem throws_initString (b : List UInt8) : Throws Benign (initString b) := by
@@ -1100,7 +1113,15 @@ theorem sim_readUpvalueLoc (a : Nat) : Sim δ (readUpvalueLoc a) (readUpvalueLoc
 theorem sim_writeUpvalueLoc (a : Nat) (v : Val) : Sim δ (writeUpvalueLoc a v) (writeUpvalueLoc a v) := by
   unfold writeUpvalueLoc; sim_auto
 
+theorem sim_guardVal (v : Val) : Sim δ (guardVal v) (guardVal v) := by unfold guardVal; sim_auto
+theorem sim_unguardVal (v : Val) : Sim δ (unguardVal v) (unguardVal v) := by
+  unfold unguardVal
+  split
+  · exact sim_dropGuard _
+  · exact sim_pure _
+
 macro_rules | `(tactic| sim_prim) => `(tactic| with_reducible first
+  | exact sim_guardVal _ | exact sim_unguardVal _
   | exact sim_push _ | exact sim_pop | exact sim_peek _ | exact sim_popN _ | exact sim_curFrame
   | exact sim_writeLocal _ _ _ | exact sim_readLocal _ _ | exact sim_keyOf _ | exact sim_getTable _
   | exact sim_tableGet _ _ | exact sim_deallocBytes _ | exact sim_newObject _ | exact sim_dropGuard _
